@@ -23,10 +23,10 @@ extern "C" int select(int nfds, fd_set *r, fd_set *w, fd_set *e, struct timeval 
 }
 
 enum Kind { SUB_NEXT, SUB_INLOOP, SUB_RUN, CANCEL, PASS_FOREVER, PASS_ONCE };
-enum Beh { PLAIN, CHILD_NEXT, CHILD_INLOOP, CANCEL_FOLLOWING, CANCEL_PREVIOUS, EXIT, NBEH };
+enum Beh { PLAIN, CHILD_NEXT, CHILD_INLOOP, CANCEL_FOLLOWING, CANCEL_PREVIOUS, EXIT, CANCEL_SELF, NBEH };
 struct Op { int k, a; };
 static const char *kN[] = {"runNext", "runInLoop", "run", "cancel", "loopForever", "loopOnce"};
-static const char *bN[] = {"plain", "child-next", "child-inloop", "cancel-following", "cancel-previous", "exit"};
+static const char *bN[] = {"plain", "child-next", "child-inloop", "cancel-following", "cancel-previous", "exit", "cancel-self"};
 
 struct Task { int entry = 0; int beh = 0; Loop::RunId id = 0; int ran = 0; bool cancelled_ok = false; long order = 0; int parent = -1; };
 struct World {
@@ -51,6 +51,7 @@ struct World {
       case CHILD_INLOOP: { int c = add(SUB_INLOOP, PLAIN, idx); submit(c); } break;
       case CANCEL_FOLLOWING: do_cancel(idx + 1); break;
       case CANCEL_PREVIOUS: do_cancel(idx - 1); break;
+      case CANCEL_SELF: do_cancel(idx); break;        // "cancel whatever I still have pending" idiom: the running callable cancels its own id
       case EXIT: if (in_pass) loop->exitLoop(); break;
     }
   }
